@@ -308,8 +308,8 @@ fn weights(profile: &str) -> Weights {
 }
 
 fn gen_amt(rng: &mut Rng) -> Amt {
-    match rng.weighted(&[50, 20, 10, 6, 4, 4]) {
-        0 => Amt::PerMille(rng.range(1, 400) as u16),
+    match rng.weighted(&[60, 16, 8, 6, 5, 5]) {
+        0 => Amt::PerMille(rng.range(1, 300) as u16),
         1 => Amt::Abs(rng.range(1, 5000) as u128),
         2 => Amt::BalPlus(rng.range(1, 3) as u8),
         3 => Amt::PerMille(1000),
@@ -318,129 +318,75 @@ fn gen_amt(rng: &mut Rng) -> Amt {
     }
 }
 
-fn gen_action(rng: &mut Rng, w: &Weights, cfg: &Config, sudo_only: Option<bool>) -> ActOp {
-    let na = cfg.n_accounts;
-    let fa = *rng.pick(&cfg.fee_assets);
-    let fee_asset = if rng.chance(1, 12) { rng.below(u64::from(N_ASSETS)) as u8 } else { fa };
-    let general = [w.transfer, w.rollup, w.bridge, w.ics20];
-    let sudo = [w.sudo, w.fee, w.validator, w.pairs];
-    let pick_general = match sudo_only {
-        Some(true) => false,
-        Some(false) => true,
-        None => {
-            let g: u32 = general.iter().sum();
-            let s: u32 = sudo.iter().sum();
-            rng.below(u64::from(g + s)) < u64::from(g)
+/// The generator's own expectation of the chain's authority state, assuming that every
+/// well-formed privileged transaction it generated succeeded. It only biases generation (most
+/// operations are plausible, a minority deliberately is not); the oracles never consult it.
+#[derive(Clone)]
+struct GenWorld {
+    sudo: u8,
+    ibc_sudo: u8,
+    relayers: Vec<u8>,
+    fee_assets: Vec<u8>,
+    /// account -> (asset, sudo, withdrawer)
+    bridges: std::collections::BTreeMap<u8, (u8, u8, u8)>,
+    used_events: Vec<(u8, u8)>,
+    vkeys: Vec<u8>,
+}
+
+impl GenWorld {
+    fn new(cfg: &Config) -> Self {
+        Self {
+            sudo: cfg.sudo,
+            ibc_sudo: cfg.ibc_sudo,
+            relayers: cfg.relayers.clone(),
+            fee_assets: cfg.fee_assets.clone(),
+            bridges: std::collections::BTreeMap::new(),
+            used_events: Vec::new(),
+            vkeys: cfg.validators.iter().map(|v| v.0).collect(),
         }
-    };
-    if pick_general {
-        match rng.weighted(&general) {
-            0 => ActOp::Transfer {
-                to: rng.below(u64::from(na) + 1) as u8,
-                asset: if rng.chance(2, 3) { 0 } else { rng.below(u64::from(N_ASSETS)) as u8 },
-                amt: gen_amt(rng),
-                fee_asset,
-            },
-            1 => {
-                let len = if rng.chance(w.big_rollup as u64, 40) {
-                    *rng.pick(&[60_000u32, 120_000, 200_000, 255_990, 256_000, 256_001])
-                } else {
-                    match rng.weighted(&[10, 50, 30, 10]) {
-                        0 => 0,
-                        1 => rng.range(1, 64) as u32,
-                        2 => rng.range(64, 2000) as u32,
-                        _ => rng.range(2000, 30_000) as u32,
-                    }
-                };
-                ActOp::Rollup { rollup: rng.below(u64::from(N_ROLLUPS)) as u8, len, fee_asset }
-            }
-            2 => {
-                // bridge family
-                let bridge = rng.below(u64::from(na)) as u8;
-                match rng.weighted(&[14, 30, 22, 14, 12]) {
-                    0 => ActOp::InitBridge {
-                        rollup: rng.below(u64::from(N_ROLLUPS)) as u8,
-                        asset: if rng.chance(3, 4) { 0 } else { rng.below(u64::from(N_ASSETS)) as u8 },
-                        fee_asset,
-                        sudo: if rng.chance(1, 2) { Some(rng.below(u64::from(na)) as u8) } else { None },
-                        withdrawer: if rng.chance(1, 2) { Some(rng.below(u64::from(na)) as u8) } else { None },
-                    },
-                    1 => ActOp::BridgeLock {
-                        to: bridge,
-                        asset: if rng.chance(3, 4) { 0 } else { rng.below(u64::from(N_ASSETS)) as u8 },
-                        amt: gen_amt(rng),
-                        fee_asset,
-                        dest_len: rng.range(0, 40) as u8,
-                    },
-                    2 => ActOp::BridgeUnlock {
-                        bridge,
-                        to: rng.below(u64::from(na)) as u8,
-                        amt: gen_amt(rng),
-                        fee_asset,
-                        event: rng.below(6) as u8,
-                    },
-                    3 => ActOp::BridgeTransfer {
-                        bridge,
-                        to: rng.below(u64::from(na)) as u8,
-                        amt: gen_amt(rng),
-                        fee_asset,
-                        event: rng.below(6) as u8,
-                    },
-                    _ => ActOp::BridgeSudoChange {
-                        bridge,
-                        new_sudo: if rng.chance(1, 2) { Some(rng.below(u64::from(na)) as u8) } else { None },
-                        new_withdrawer: if rng.chance(1, 2) { Some(rng.below(u64::from(na)) as u8) } else { None },
-                        fee_asset,
-                        disable: rng.chance(1, 3),
-                    },
-                }
-            }
-            _ => ActOp::Ics20Withdrawal {
-                asset: rng.below(u64::from(N_ASSETS)) as u8,
-                amt: gen_amt(rng),
-                channel: rng.below(2) as u8,
-                fee_asset,
-                bridge: if rng.chance(1, 3) { Some(rng.below(u64::from(na)) as u8) } else { None },
-                event: rng.below(6) as u8,
-            },
+    }
+
+    fn fee_asset(&self, rng: &mut Rng) -> u8 {
+        if self.fee_assets.is_empty() || rng.chance(1, 14) {
+            rng.below(u64::from(N_ASSETS)) as u8
+        } else {
+            *rng.pick(&self.fee_assets)
         }
-    } else {
-        match rng.weighted(&sudo) {
-            0 => match rng.weighted(&[3, 2, 4]) {
-                0 => ActOp::SudoChange { to: rng.below(u64::from(na)) as u8 },
-                1 => ActOp::IbcSudoChange { to: rng.below(u64::from(na)) as u8 },
-                _ => ActOp::RelayerChange { add: rng.chance(1, 2), who: rng.below(u64::from(na)) as u8 },
-            },
-            1 => {
-                if rng.chance(1, 3) {
-                    ActOp::FeeAssetChange { add: rng.chance(2, 3), asset: rng.below(u64::from(N_ASSETS)) as u8 }
-                } else {
-                    let (base, mult) = match rng.weighted(&[40, 20, 20, 10, 10]) {
-                        0 => (rng.range(0, 50) as u128, rng.range(0, 5) as u128),
-                        1 => (0, 0),
-                        2 => (rng.range(1000, 1_000_000) as u128, rng.range(1, 2000) as u128),
-                        3 => (u128::MAX / 2, 1),
-                        _ => (1, u128::MAX / 3),
-                    };
-                    ActOp::FeeChange { which: rng.below(18) as u8, base, mult }
-                }
+    }
+
+    fn plain_account(&self, rng: &mut Rng, na: u8) -> u8 {
+        for _ in 0..6 {
+            let a = rng.below(u64::from(na)) as u8;
+            if !self.bridges.contains_key(&a) {
+                return a;
             }
-            2 => ActOp::ValidatorUpdate {
-                vkey: rng.below(u64::from(N_VKEYS)) as u8,
-                power: match rng.weighted(&[35, 45, 10, 10]) {
-                    0 => 0,
-                    1 => rng.range(1, 20) as u32,
-                    2 => rng.range(1, 3) as u32,
-                    _ => rng.range(1000, 100_000) as u32,
-                },
-            },
-            _ => ActOp::CurrencyPairs { add: rng.chance(1, 2), pair: rng.below(4) as u8 },
         }
+        rng.below(u64::from(na)) as u8
+    }
+
+    fn some_bridge(&self, rng: &mut Rng, na: u8) -> u8 {
+        if self.bridges.is_empty() || rng.chance(1, 8) {
+            rng.below(u64::from(na)) as u8
+        } else {
+            let keys: Vec<u8> = self.bridges.keys().copied().collect();
+            *rng.pick(&keys)
+        }
+    }
+
+    fn event(&mut self, rng: &mut Rng, bridge: u8) -> u8 {
+        let used: Vec<u8> = self.used_events.iter().filter(|(b, _)| *b == bridge).map(|(_, e)| *e).collect();
+        if !used.is_empty() && rng.chance(3, 10) {
+            return *rng.pick(&used);
+        }
+        let e = rng.below(40) as u8;
+        self.used_events.push((bridge, e));
+        e
     }
 }
 
-fn gen_tx(rng: &mut Rng, w: &Weights, cfg: &Config, id: u32, prev_tx_ids: &[u32]) -> TxOp {
-    let na = u64::from(cfg.n_accounts);
+/// Generates one transaction: first a role (whose key signs), then actions that fit the role.
+fn gen_tx(rng: &mut Rng, w: &Weights, cfg: &Config, gw: &mut GenWorld, id: u32, prev_tx_ids: &[u32]) -> TxOp {
+    let na = cfg.n_accounts;
     if !prev_tx_ids.is_empty() && rng.chance(u64::from(w.replay), 200) {
         return TxOp {
             id,
@@ -452,38 +398,212 @@ fn gen_tx(rng: &mut Rng, w: &Weights, cfg: &Config, id: u32, prev_tx_ids: &[u32]
             replay_of: Some(*rng.pick(prev_tx_ids)),
         };
     }
-    let sudo_tx = {
-        let s = w.sudo + w.fee + w.validator + w.pairs;
-        let g = w.transfer + w.rollup + w.bridge + w.ics20;
-        rng.below(u64::from(s + g)) < u64::from(s)
-    };
-    let n_actions = if rng.chance(u64::from(w.bundle), 100) { rng.range(2, 5) } else { 1 };
-    let mut actions = Vec::new();
-    for _ in 0..n_actions {
-        let a = gen_action(rng, w, cfg, Some(sudo_tx));
-        // unbundleable actions stand alone (a bundle containing one is rejected at construction,
-        // which the generator also produces, but rarely)
-        let unbundleable = matches!(
-            a,
-            ActOp::SudoChange { .. } | ActOp::IbcSudoChange { .. } | ActOp::InitBridge { .. } | ActOp::BridgeSudoChange { .. }
-        );
-        if unbundleable && !actions.is_empty() && !rng.chance(1, 10) {
-            continue;
+    let sudo_w = w.sudo + w.fee + w.validator + w.pairs;
+    let user_w = w.transfer + w.rollup + w.ics20;
+    let role = rng.weighted(&[user_w, w.bridge, sudo_w]);
+    let wrong_signer = rng.chance(u64::from(w.bad_signer), 100);
+    let n_actions = if rng.chance(u64::from(w.bundle), 100) { rng.range(2, 5) as usize } else { 1 };
+    let mut actions: Vec<ActOp> = Vec::new();
+    let mut signer: u8;
+    match role {
+        // ---- a plain user: transfers, rollup data, locks into bridges, ICS20 withdrawals -------
+        0 => {
+            signer = gw.plain_account(rng, na);
+            for _ in 0..n_actions {
+                let fee_asset = gw.fee_asset(rng);
+                let a = match rng.weighted(&[w.transfer, w.rollup, w.ics20, w.bridge / 2]) {
+                    0 => ActOp::Transfer {
+                        to: rng.below(u64::from(na) + 1) as u8,
+                        asset: if rng.chance(2, 3) { 0 } else { rng.below(u64::from(N_ASSETS)) as u8 },
+                        amt: gen_amt(rng),
+                        fee_asset,
+                    },
+                    1 => {
+                        let len = if rng.chance(u64::from(w.big_rollup), 40) {
+                            *rng.pick(&[60_000u32, 120_000, 200_000, 255_990, 256_000, 256_001])
+                        } else {
+                            match rng.weighted(&[10, 50, 30, 10]) {
+                                0 => 0,
+                                1 => rng.range(1, 64) as u32,
+                                2 => rng.range(64, 2000) as u32,
+                                _ => rng.range(2000, 30_000) as u32,
+                            }
+                        };
+                        ActOp::Rollup { rollup: rng.below(u64::from(N_ROLLUPS)) as u8, len, fee_asset }
+                    }
+                    2 => ActOp::Ics20Withdrawal {
+                        asset: rng.below(u64::from(N_ASSETS)) as u8,
+                        amt: gen_amt(rng),
+                        channel: rng.below(2) as u8,
+                        fee_asset,
+                        bridge: None,
+                        event: 0,
+                    },
+                    _ => {
+                        let to = gw.some_bridge(rng, na);
+                        let asset = match gw.bridges.get(&to) {
+                            Some((a, _, _)) if !rng.chance(1, 8) => *a,
+                            _ => rng.below(u64::from(N_ASSETS)) as u8,
+                        };
+                        ActOp::BridgeLock { to, asset, amt: gen_amt(rng), fee_asset, dest_len: rng.range(0, 40) as u8 }
+                    }
+                };
+                actions.push(a);
+            }
+            if wrong_signer && !gw.bridges.is_empty() {
+                // a bridge account trying to move its own funds with plain actions
+                signer = gw.some_bridge(rng, na);
+            }
         }
-        actions.push(a);
-        if unbundleable && !rng.chance(1, 10) {
-            break;
+        // ---- bridge operations: init, unlock, bridge transfer, ICS20 from bridge, admin ---------
+        1 => {
+            let fee_asset = gw.fee_asset(rng);
+            if gw.bridges.len() < 3 && (gw.bridges.is_empty() || rng.chance(1, 4)) {
+                signer = gw.plain_account(rng, na);
+                let asset = if rng.chance(3, 4) { 0 } else { rng.below(u64::from(N_ASSETS)) as u8 };
+                let sudo = if rng.chance(1, 2) { Some(rng.below(u64::from(na)) as u8) } else { None };
+                let withdrawer = if rng.chance(1, 2) { Some(rng.below(u64::from(na)) as u8) } else { None };
+                gw.bridges.entry(signer).or_insert((asset, sudo.unwrap_or(signer), withdrawer.unwrap_or(signer)));
+                actions.push(ActOp::InitBridge { rollup: rng.below(u64::from(N_ROLLUPS)) as u8, asset, fee_asset, sudo, withdrawer });
+            } else {
+                let bridge = gw.some_bridge(rng, na);
+                let (b_asset, b_sudo, b_withdrawer) = gw.bridges.get(&bridge).copied().unwrap_or((0, bridge, bridge));
+                if rng.chance(1, 6) {
+                    // administration by the bridge sudo
+                    signer = b_sudo;
+                    let new_sudo = if rng.chance(1, 2) { Some(rng.below(u64::from(na)) as u8) } else { None };
+                    let new_withdrawer = if rng.chance(1, 2) { Some(rng.below(u64::from(na)) as u8) } else { None };
+                    if !wrong_signer {
+                        if let Some(e) = gw.bridges.get_mut(&bridge) {
+                            if let Some(s) = new_sudo {
+                                e.1 = s;
+                            }
+                            if let Some(x) = new_withdrawer {
+                                e.2 = x;
+                            }
+                        }
+                    }
+                    actions.push(ActOp::BridgeSudoChange { bridge, new_sudo, new_withdrawer, fee_asset, disable: rng.chance(1, 3) });
+                } else {
+                    signer = b_withdrawer;
+                    for _ in 0..n_actions {
+                        let fee_asset = gw.fee_asset(rng);
+                        let event = gw.event(rng, bridge);
+                        let a = match rng.weighted(&[50, 30, if w.ics20 > 0 { 25 } else { 4 }]) {
+                            0 => ActOp::BridgeUnlock { bridge, to: rng.below(u64::from(na)) as u8, amt: gen_amt(rng), fee_asset, event },
+                            1 => {
+                                let others: Vec<u8> = gw.bridges.iter().filter(|(k, v)| **k != bridge && (v.0 == b_asset || rng.chance(1, 8))).map(|(k, _)| *k).collect();
+                                let to = if others.is_empty() { rng.below(u64::from(na)) as u8 } else { *rng.pick(&others) };
+                                ActOp::BridgeTransfer { bridge, to, amt: gen_amt(rng), fee_asset, event }
+                            }
+                            _ => ActOp::Ics20Withdrawal { asset: b_asset, amt: gen_amt(rng), channel: rng.below(2) as u8, fee_asset, bridge: Some(bridge), event },
+                        };
+                        actions.push(a);
+                    }
+                }
+                if wrong_signer {
+                    signer = rng.below(u64::from(na)) as u8;
+                }
+            }
+        }
+        // ---- chain authorities -----------------------------------------------------------------
+        _ => {
+            signer = gw.sudo;
+            match rng.weighted(&[w.sudo, w.fee, w.validator, w.pairs]) {
+                0 => match rng.weighted(&[3, 2, 4]) {
+                    0 => {
+                        let to = rng.below(u64::from(na)) as u8;
+                        if !wrong_signer {
+                            gw.sudo = to;
+                        }
+                        actions.push(ActOp::SudoChange { to });
+                    }
+                    1 => {
+                        let to = rng.below(u64::from(na)) as u8;
+                        if !wrong_signer {
+                            gw.ibc_sudo = to;
+                        }
+                        actions.push(ActOp::IbcSudoChange { to });
+                    }
+                    _ => {
+                        signer = gw.ibc_sudo;
+                        for _ in 0..n_actions {
+                            let add = gw.relayers.is_empty() || rng.chance(1, 2);
+                            let who = if add || gw.relayers.is_empty() { rng.below(u64::from(na)) as u8 } else { *rng.pick(&gw.relayers) };
+                            if !wrong_signer {
+                                if add {
+                                    gw.relayers.push(who);
+                                } else {
+                                    gw.relayers.retain(|r| *r != who);
+                                }
+                            }
+                            actions.push(ActOp::RelayerChange { add, who });
+                        }
+                    }
+                },
+                1 => {
+                    for _ in 0..n_actions {
+                        if rng.chance(1, 3) {
+                            let add = gw.fee_assets.len() < 2 || rng.chance(1, 2);
+                            let asset = if add { rng.below(u64::from(N_ASSETS)) as u8 } else { *rng.pick(&gw.fee_assets) };
+                            if !wrong_signer {
+                                if add {
+                                    if !gw.fee_assets.contains(&asset) {
+                                        gw.fee_assets.push(asset);
+                                    }
+                                } else if gw.fee_assets.len() > 1 || rng.chance(1, 6) {
+                                    gw.fee_assets.retain(|a| *a != asset);
+                                }
+                            }
+                            actions.push(ActOp::FeeAssetChange { add, asset });
+                        } else {
+                            let (base, mult) = match rng.weighted(&[40, 20, 20, 10, 10]) {
+                                0 => (rng.range(0, 50) as u128, rng.range(0, 5) as u128),
+                                1 => (0, 0),
+                                2 => (rng.range(1000, 1_000_000) as u128, rng.range(1, 2000) as u128),
+                                3 => (u128::MAX / 2, 1),
+                                _ => (1, u128::MAX / 3),
+                            };
+                            actions.push(ActOp::FeeChange { which: rng.below(18) as u8, base, mult });
+                        }
+                    }
+                }
+                2 => {
+                    for _ in 0..n_actions {
+                        // mostly meaningful updates: remove/repower an existing validator, add a new one
+                        let known = !gw.vkeys.is_empty() && rng.chance(3, 5);
+                        let vkey = if known { *rng.pick(&gw.vkeys) } else { rng.below(u64::from(N_VKEYS)) as u8 };
+                        let power = match rng.weighted(&[30, 50, 10, 10]) {
+                            0 => 0,
+                            1 => rng.range(1, 20) as u32,
+                            2 => rng.range(1, 3) as u32,
+                            _ => rng.range(1000, 100_000) as u32,
+                        };
+                        if !wrong_signer {
+                            if power == 0 {
+                                gw.vkeys.retain(|k| *k != vkey);
+                            } else if !gw.vkeys.contains(&vkey) {
+                                gw.vkeys.push(vkey);
+                            }
+                        }
+                        actions.push(ActOp::ValidatorUpdate { vkey, power });
+                    }
+                }
+                _ => {
+                    for _ in 0..n_actions {
+                        actions.push(ActOp::CurrencyPairs { add: rng.chance(1, 2), pair: rng.below(4) as u8 });
+                    }
+                }
+            }
+            if wrong_signer {
+                signer = rng.below(u64::from(na)) as u8;
+            }
         }
     }
-    // signer: sudo actions are mostly signed by the (initial) sudo, sometimes by someone else
-    let signer = if sudo_tx && !rng.chance(u64::from(w.bad_signer), 100) {
-        match actions.first() {
-            Some(ActOp::RelayerChange { .. }) => cfg.ibc_sudo,
-            _ => cfg.sudo,
-        }
-    } else {
-        rng.below(na) as u8
-    };
+    // occasionally an ill-formed bundle (mixed groups): must be rejected at construction
+    if rng.chance(1, 40) {
+        actions.push(ActOp::SudoChange { to: 0 });
+    }
     let nonce = if rng.chance(u64::from(w.bad_nonce), 100) {
         if rng.chance(1, 2) { NonceSel::Plus(rng.range(1, 3) as u8) } else { NonceSel::Minus(rng.range(1, 2) as u8) }
     } else {
@@ -501,9 +621,9 @@ fn gen_tx(rng: &mut Rng, w: &Weights, cfg: &Config, id: u32, prev_tx_ids: &[u32]
     }
 }
 
-fn gen_ibc(rng: &mut Rng, cfg: &Config, id: u32) -> IbcOp {
+fn gen_ibc(rng: &mut Rng, cfg: &Config, gw: &GenWorld, id: u32) -> IbcOp {
     let na = u64::from(cfg.n_accounts);
-    let relayer = if !cfg.relayers.is_empty() && rng.chance(9, 10) { *rng.pick(&cfg.relayers) } else { rng.below(na) as u8 };
+    let relayer = if !gw.relayers.is_empty() && rng.chance(9, 10) { *rng.pick(&gw.relayers) } else { rng.below(na) as u8 };
     let kind = match rng.weighted(&[55, 25, 20]) {
         0 => IbcKind::Recv {
             channel: rng.below(2) as u8,
@@ -521,7 +641,7 @@ fn gen_ibc(rng: &mut Rng, cfg: &Config, id: u32) -> IbcOp {
                 _ => RecvAmt::NotANumber,
             },
             to: match rng.weighted(&[80, 10, 10]) {
-                0 => RecvTo::Account(rng.below(na + 1) as u8),
+                0 => RecvTo::Account(if !gw.bridges.is_empty() && rng.chance(1, 2) { gw.some_bridge(rng, cfg.n_accounts) } else { rng.below(na + 1) as u8 }),
                 1 => RecvTo::Compat(rng.below(na) as u8),
                 _ => RecvTo::Garbage,
             },
@@ -699,7 +819,8 @@ pub(crate) fn generate(profile: &str, tier: &str, seed: u64) -> Scenario {
     let mut ops = Vec::new();
     let mut next_id = 0u32;
     let mut tx_ids: Vec<u32> = Vec::new();
-    for h in 0..heights {
+    let mut gw = GenWorld::new(&cfg);
+    for _h in 0..heights {
         // early on, make sure some bridge accounts exist
         let n_txs = match rng.weighted(&[10, 40, 35, 15]) {
             0 => 0,
@@ -710,18 +831,7 @@ pub(crate) fn generate(profile: &str, tier: &str, seed: u64) -> Scenario {
         for _ in 0..n_txs {
             let id = next_id;
             next_id += 1;
-            let mut tx = gen_tx(&mut rng, &w, &cfg, id, &tx_ids);
-            if h < 3 && tx.replay_of.is_none() && rng.chance(1, 4) {
-                tx.actions = vec![ActOp::InitBridge {
-                    rollup: rng.below(u64::from(N_ROLLUPS)) as u8,
-                    asset: 0,
-                    fee_asset: cfg.fee_assets[0],
-                    sudo: if rng.chance(1, 2) { Some(rng.below(u64::from(n_accounts)) as u8) } else { None },
-                    withdrawer: if rng.chance(1, 2) { Some(rng.below(u64::from(n_accounts)) as u8) } else { None },
-                }];
-                tx.signer = rng.below(u64::from(n_accounts)) as u8;
-                tx.nonce = NonceSel::Next;
-            }
+            let tx = gen_tx(&mut rng, &w, &cfg, &mut gw, id, &tx_ids);
             if tx.replay_of.is_none() {
                 tx_ids.push(id);
             }
@@ -731,7 +841,7 @@ pub(crate) fn generate(profile: &str, tier: &str, seed: u64) -> Scenario {
         for _ in 0..n_ibc {
             let id = next_id;
             next_id += 1;
-            ops.push(Op::Ibc(gen_ibc(&mut rng, &cfg, id)));
+            ops.push(Op::Ibc(gen_ibc(&mut rng, &cfg, &gw, id)));
         }
         let id = next_id;
         next_id += 1;
